@@ -77,16 +77,35 @@ macro_rules | `(tactic| tinv_step) => `(tactic| with_reducible apply TInv.guardR
 theorem TInv.frontStep {w : World} (h : TInv ex w) (g : Nat) (gd : Guard) : TInv ex (frontStep w g gd) := by
   unfold S3.frontStep; tinv
 
-theorem TInv.guardSignal : ∀ (fuel : Nat) {w : World}, TInv ex w → ∀ g, TInv ex (guardSignal fuel w g) := by
+theorem TInv.condSignal_fst {w : World} (h : TInv ex w) (g : Nat) : TInv ex (condSignal w g).1 := by
+  simp only [Sim.condSignal]
+  split
+  · exact h
+  · split
+    · exact h
+    · refine TInv.foldl (fun w q h => by tinv) _ ?_
+      exact TInv.foldl (fun w q h => by tinv) _ h
+macro_rules | `(tactic| tinv_step) => `(tactic| with_reducible apply TInv.condSignal_fst)
+
+theorem TInv.ownStep {w : World} (h : TInv ex w) (fwd : Bool) (g : Nat) (gd : Guard) : TInv ex (ownStep fwd w g gd) := by
+  unfold S3.ownStep
+  split
+  · exact h.condSignal_fst g
+  · exact h.frontStep g gd
+
+theorem TInv.guardSignalF : ∀ (fuel : Nat) (fwd : Bool) {w : World}, TInv ex w → ∀ g, TInv ex (guardSignalF fwd fuel w g) := by
   intro fuel
   induction fuel with
-  | zero => intro w h g; rw [guardSignal_zero]; exact h.fail _
+  | zero => intro fwd w h g; rw [guardSignalF_zero]; exact h.fail _
   | succ fuel ih =>
-    intro w h g
-    rw [guardSignal_succ]
+    intro fwd w h g
+    rw [guardSignalF_succ]
     split
     · exact h
-    · exact TInv.foldl (fun w o hw => ih hw o) _ (h.frontStep g _)
+    · exact TInv.foldl (fun w o hw => ih true hw o) _ (h.ownStep fwd g _)
+
+theorem TInv.guardSignal (fuel : Nat) {w : World} (h : TInv ex w) (g : Nat) : TInv ex (guardSignal fuel w g) :=
+  TInv.guardSignalF fuel false h g
 
 theorem TInv.signal {w : World} (h : TInv ex w) (g : Nat) : TInv ex (signal w g) := TInv.guardSignal 8 h g
 macro_rules | `(tactic| tinv_step) => `(tactic| with_reducible apply TInv.signal)
@@ -142,15 +161,6 @@ theorem TInv.poolRollback {w : World} (h : TInv ex w) (p : Pid) (pl ini : Nat) :
   simp only [Sim.poolRollback]; tinv
 macro_rules | `(tactic| tinv_step) => `(tactic| with_reducible apply TInv.poolRollback)
 
-theorem TInv.condSignal_fst {w : World} (h : TInv ex w) (g : Nat) : TInv ex (condSignal w g).1 := by
-  simp only [Sim.condSignal]
-  split
-  · exact h
-  · split
-    · exact h
-    · refine TInv.foldl (fun w q h => by tinv) _ ?_
-      exact TInv.foldl (fun w q h => by tinv) _ h
-macro_rules | `(tactic| tinv_step) => `(tactic| with_reducible apply TInv.condSignal_fst)
 
 theorem TInv.setRecording {w : World} (h : TInv ex w) (kind idx : Nat) (on : Bool) : TInv ex (setRecording w kind idx on) := by
   simp only [Sim.setRecording]; tinv
